@@ -167,7 +167,8 @@ def variant_edits(root):
     _edit(root, pf, "# This list should include names of predefined parser functions and",
           'def reverse_fn(\n    ctx: "Wtp", fn_name: str, args: list[str], expander: Callable[[str], str]\n) -> str:\n'
           '    """Implements a hypothetical #reverse parser function."""\n    v = expander(args[0]).strip() if args else ""\n'
-          '    try:\n        n = int(expander(args[1])) if len(args) > 1 else 0\n    except ValueError:\n        n = 0\n'
+          '    w = expander(args[1]).strip() if len(args) > 1 else ""\n'
+          '    try:\n        n = int(w)\n    except ValueError:\n        n = 0\n'
           '    return v[::-1] if n == 0 else v\n\n\n# This list should include names of predefined parser functions and')
     _edit(root, pf, '    "#isbn": isbn_fn,\n}', '    "#isbn": isbn_fn,\n    "#reverse": reverse_fn,\n}')
     # a new safe key in the sandbox environment
@@ -255,4 +256,5 @@ def main():
     sys.exit(overall)
 
 
-main()
+if __name__ == "__main__":
+    main()
